@@ -7,12 +7,79 @@ import sys
 VERIF = os.path.dirname(os.path.dirname(os.path.abspath(__file__)))
 
 # id -> (level category, technique, level text, level note, design ref)
+TRUST = "Trusted: the reference model and generators (harness/*.go), encoding/json as the definition of object equality, rapid's generators/shrinker, the input-domain restrictions listed in evidence.assumptions. A pass means the property held on every generated case; it is a search, not a proof."
+
+def ex(tech, text, ref, cat="exploration", note=TRUST):
+    return (cat, tech, text, note, ref)
+
 CHECKS = {
-    "C01": ("exploration",
-            "model-based stateful PBT (rapid): reference map model vs. all read paths after every op",
-            "Generated operation sequences under generated configurations are executed against sod and a reference model; every read path is compared after every step, absent ids are looked up twice, uuids are checked for freshness/stability, and the directory is compared with the model through an independent walker. A pass means the refinement held on every generated history; it is a search, not a proof.",
-            "Trusted: the reference model (harness/model.go), encoding/json as the definition of object equality, the input-domain restrictions listed in evidence.assumptions.",
-            "DESIGN.md §4 C01"),
+    "C01": ex("model-based stateful PBT (rapid): reference map model vs. every read path after every op",
+              "Generated operation sequences under generated configurations are executed against sod and a reference model; every read path is compared after every step, absent ids are looked up twice, uuids are checked for freshness/stability, and the directory is compared with the model through an independent walker.",
+              "DESIGN.md §4 C01"),
+    "C02": ex("model-based PBT: generated query chains + exhaustive-per-state search sweep vs. model predicate; metamorphic re-run with complemented index assignment; direct big-index property",
+              "Every generated query (all operators, And/Or chains, indexed/unindexed/nested/through-nil paths, boundary and absent probes) and an automatic sweep over every stored value and its neighbours are compared as multisets with predicates evaluated on the model, after every op of a generated history; the same program is re-run with the index assignment complemented; a second property hammers one index with up to 200 keys.",
+              "DESIGN.md §4 C02"),
+    "C03": ex("model-based stateful PBT with tiny value domains: accept/reject iff oracle",
+              "Histories on collections with 1-3 unique paths where conflicts are the norm; the model decides acceptance exactly (iff), including reuse of released values and behaviour after reopen; all read paths compared after every op.",
+              "DESIGN.md §4 C03"),
+    "C04": ex("differential PBT: complete observation before Close vs. after Open (and vs. model), 64-bit/timestamp biased values",
+              "Generated histories with Close+Open / abandon+Open at arbitrary positions; the full observation (objects, AssignIndex order, search sweep over all operators and neighbours, Control) of the old handle must equal that of the new handle and the model; later ops must behave as the model says.",
+              "DESIGN.md §4 C04"),
+    "C05": ex("fault enumeration over generated histories: every prefix of the recorded fs-mutation log (+ torn writes) materialised and reopened; oracle = independent decoding of files + model",
+              "For each generated history the file-system mutations of a rewritten working-tree copy are recorded; EVERY cut (and three torn offsets per Write) is materialised and reopened; detection-or-harmless, Repair convergence, readability of every file, index/file agreement and per-object before/after atomicity are checked. Exhaustive per history over crash points, sampled over histories.",
+              "DESIGN.md §4 C05", "fault_enumeration",
+              TRUST + " Crash model: completed system calls persist in order (process crash), torn writes inside one Write only. The fs shim (tools/vshim) is trusted to record faithfully; two known findings are excluded by narrow predicates (KNOWN_FINDINGS.txt)."),
+    "C06": ex("model-based PBT over rejected writes (every read path unchanged) + enumeration of every single storage-fault position of a generated target call",
+              "Logical half: histories dominated by rejected calls (Validate, uniqueness, wrong type, unknown collection, NaN/Inf) with the complete observation compared with the unchanged model after every call. Storage half: for a generated history and target call EVERY fs-mutation position is failed once (EIO, optionally after a short write); afterwards either nothing changed or Control / the next load reports it and Repair converges.",
+              "DESIGN.md §4 C06", "fault_enumeration",
+              TRUST + " Single-fault model (one failing fs call per run). Two known findings excluded by predicate (KNOWN_FINDINGS.txt)."),
+    "C07": ex("model-based PBT over generated batches and chunk sizes",
+              "Batches mixing fresh objects, updates, the same object twice, duplicate uuids, wrong-type and invalid members and intra-batch conflicts at generated positions, for Many and Bulk with chunk sizes 0-5; (n, err) and the complete observation are compared with the model's all-or-nothing / whole-chunk semantics.",
+              "DESIGN.md §4 C07"),
+    "C08": ex("generated concurrent programs under the Go race detector + porcupine linearizability check of recorded histories against the reference model",
+              "Generated multi-goroutine programs over all public entry points run several times under different GOMAXPROCS with random yields at fs call sites in a -race build; any race report or crash is a violation; for the class of calls that are atomic observable pieces the recorded history (closed by a sequential sweep) must be linearizable w.r.t. the model (porcupine). Schedules are sampled.",
+              "DESIGN.md §4 C08", "exploration",
+              TRUST + " Trusted additionally: Go's race detector and porcupine v1.3.0. Interleavings are sampled; the race detector is order-insensitive for accesses that occur in the run."),
+    "C09": ex("generated concurrent programs on a lock-instrumented copy: single-threaded lock-discipline monitor (confirmed by writer injection) + progress watchdog",
+              "Every generated program (all entry points, all configurations, flusher running) is executed single-threaded under a lock monitor that flags re-entrant read acquisitions, self deadlocks and lock-order cycles deterministically, then concurrently with perturbation under a watchdog that declares a hang only when all workers sit in lock acquisitions on two samples.",
+              "DESIGN.md §4 C09", "exploration",
+              TRUST + " 'For every call path' is approximated dynamically: a nested acquisition on a path no generated program executes is missed (evidence lists the entry points executed)."),
+    "C10": ex("model-based stateful PBT under a harness-owned virtual clock: visibility after every op, deadline-based disk oracle through an independent walker, second-handle differential after flush/Close",
+              "time.Sleep of the working-tree copy is redirected to a virtual clock, so threshold/timeout driven flushes are stepped deterministically; liveness is checked as 'on disk by an explicit conservative virtual-time deadline'.",
+              "DESIGN.md §4 C10", "exploration",
+              TRUST + " Assumes the flusher measures time only through time.Sleep/After/Ticker."),
+    "C11": ex("generated fault sets applied to generated databases; set-based oracle for detection (iff), file-content oracle after Repair",
+              "After a generated history the directory is damaged from outside (files removed/added, index entries removed, schema removed, internal inconsistency); detection must match the set difference exactly (no false positives on healthy databases of any configuration), Repair must not touch object files and must make every read path equal predicates on decoded file contents.",
+              "DESIGN.md §4 C11"),
+    "C12": ex("differential PBT: one generated program under two independently drawn configurations, normalised traces compared line by line",
+              "Includes Exist on fresh writes, spoilt queries (invalid pattern, mistyped probe, unknown operator/field) on empty and non-empty collections, and Control once nothing is pending.",
+              "DESIGN.md §4 C12"),
+    "C13": ex("model-based PBT on tie-heavy collections: key-sequence oracle for order, Reverse, Limit, One, AssignIndex",
+              "The returned key sequence must equal the first min(limit, matches) keys of the model's sorted match set (tie order left free), results must be distinct members of the match set; AssignIndex is compared after every op.",
+              "DESIGN.md §4 C13"),
+    "C14": ex("PBT over generated object shapes with reflection-driven mutation scripts and address-set disjointness",
+              "Caller objects are scrambled after storing, returned objects are scrambled after reading, successive reads must share no reachable pointer/slice/map, and a cached read must equal a cold read through the file.",
+              "DESIGN.md §4 C14"),
+    "C15": ex("model-based PBT with data-driven Transform/Validate hooks on all insertion entry points",
+              "Validity depends on the transformed and case-canonicalised value; Validate records what it saw, which must equal what was stored; invalid objects must be absent from every read path.",
+              "DESIGN.md §4 C15"),
+    "C16": ex("model-based PBT over case-mapping strings (special-casing runes) on top-level/nested/behind-pointer/embedded paths, indexed or not, unique or not",
+              "Stored values, probes and uniqueness are all judged on strings.ToUpper/ToLower canonical forms; idempotence is checked on what the database returns.",
+              "DESIGN.md §4 C16"),
+    "C17": ex("PBT over (stored shape, current shape) pairs from a struct family + generated descriptor edits + generated settings switches on a live handle under the virtual clock",
+              "Refusals must carry the predicted sentinel on every operation and leave the directory byte-identical; compatible Create is idempotent; cache/async switches at arbitrary points never lose or stale a write and never kill the process.",
+              "DESIGN.md §4 C17", "exploration",
+              TRUST + " The current-shape side is a finite hand-written family (Go types are static)."),
+    "C18": ex("independent directory walker/decoder on generated histories + golden corpus written by the pinned release, opened, extended and re-walked",
+              "No sod code is used to judge the layout; 40 directories produced by the pinned release under 26 configurations must open with identical contents, search behaviour and constraints, and stay loadable after generated further writes.",
+              "DESIGN.md §4 C18", "exploration",
+              TRUST + " Trusted additionally: the golden corpus under /verif/golden (verified against the model by the walker when it was recorded)."),
+    "C19": ex("structure-aware mutation of schema.json/object files + stray directory entries + hostile search argument triples, battery of API calls under recover() and a watchdog; native go fuzzing in the thorough tier",
+              "Any panic or hang is a violation; unevaluable searches must return no objects; with only stray entries added everything must still equal the model.",
+              "DESIGN.md §4 C19"),
+    "C20": ex("model-based PBT: search evaluated, generated writes placed relative to the result range, then consumed; snapshot-set oracle",
+              "Collected uuids must be exactly the matches at evaluation time unless members were deleted (then an error or a duplicate-free subset); never an object that did not match.",
+              "DESIGN.md §4 C20"),
 }
 
 NOT_YET = {}
